@@ -151,7 +151,13 @@ def binop(fr, op, l, r, node):
         if isinstance(l, ABits) and const_of(fr, r) is not None:
             return ABits(l.items * const_of(fr, r), l.kind)
     if isinstance(op, ast.Mod) and isinstance(l, str):
-        return I.opaque("string formatting")
+        rr = r if isinstance(r, tuple) else (r,)
+        if not any(is_abs(x) for x in rr):
+            try:
+                return l % r
+            except Exception as e:
+                raise PathRaise(type(e).__name__, str(e))
+        return I.opaque("string formatting", notnone=True)
     if isinstance(l, ABits) and l.kind == "ba" and isinstance(op, (ast.LShift, ast.RShift)) and const_of(fr, r) is not None:
         k = min(const_of(fr, r), len(l.items))
         if isinstance(op, ast.LShift):
@@ -351,7 +357,8 @@ def compare(fr, op, l, r, node):
         same = (l is r) or (l is None and r is None) or (isinstance(l, bool) and isinstance(r, bool) and l == r) \
             or (isinstance(l, EnumMember) and l == r)
         if is_abs(l) and r is None or is_abs(r) and l is None:
-            if isinstance(l, AOpq) or isinstance(r, AOpq):
+            o = l if isinstance(l, AOpq) else r if isinstance(r, AOpq) else None
+            if o is not None and not o.notnone:
                 return I.opaque("is None on opaque")
             same = False
         return same if isinstance(op, ast.Is) else not same
@@ -434,6 +441,10 @@ def compare(fr, op, l, r, node):
 def eq(fr, l, r, node):
     I = fr.I
     if isinstance(l, AOpq) or isinstance(r, AOpq):
+        if l is r:
+            return True
+        if getattr(l, "unique", False) or getattr(r, "unique", False):
+            return False  # a fresh unique value (uuid4) equals only itself
         return I.opaque("== with opaque")
     if isinstance(r, (AInt, AEnum, ABits)) and not isinstance(l, (AInt, AEnum, ABits)):
         l, r = r, l
@@ -482,9 +493,11 @@ def eq(fr, l, r, node):
             a, b = I.simp_bits(l.items), I.simp_bits(fr.to_bitlist(r))
             if len(a) != len(b):
                 return False
-            d = [x ^ y for x, y in zip(a, b)]
+            d = [I.simp(x ^ y) if not isinstance(x ^ y, OB) else (x ^ y) for x, y in zip(a, b)]
+            if any(isinstance(x, F) and x.is_const and x.c == 1 for x in d):
+                return False
             if all(isinstance(x, F) and x.is_const for x in d):
-                return not any(x.c for x in d)
+                return True
             return ACond("eqseq", ABits(a, "seq"), ABits(b, "seq"))
         return False
     if isinstance(l, ACond) or isinstance(r, ACond):
@@ -506,6 +519,8 @@ def getattr_(fr, base, attr, node):
     I = fr.I
     repo = I.repo
     if isinstance(base, AOpq):
+        if base.notnone and attr in ("encode", "decode", "strip", "lstrip", "rstrip", "upper", "lower", "hex", "format", "replace", "rjust", "ljust", "zfill", "split", "join"):
+            return AFn(base, attr)
         return I.opaque(f"attr {attr} of opaque")
     if isinstance(base, AExt):
         return AFn(base, attr)
@@ -1164,6 +1179,26 @@ def b_getattr(fr, args, kw, n):
 
 BUILTINS[getattr] = b_getattr
 
+
+def b_setattr(fr, args, kw, n):
+    o, a, v = args
+    if not isinstance(a, str):
+        raise Abort("setattr with abstract name")
+    if isinstance(o, AObj):
+        setter = fr.I.repo.find_method(o.cls, a + ".setter")
+        if setter is not None:
+            fr.I.call(setter, [o, v], {}, o.cls)
+        else:
+            o.attrs[a] = v
+        return None
+    if isinstance(o, AOpq):
+        return None
+    raise Abort(f"setattr on {type(o).__name__}")
+
+
+SAFE.setdefault("setattr", setattr)
+BUILTINS[setattr] = b_setattr
+
 # ------------------------------------------------------------------------------------------------ methods on values
 
 
@@ -1171,6 +1206,8 @@ def method(fr, base, name, args, kw, n):
     I = fr.I
     if name == "noop" and base is None:
         return None
+    if isinstance(base, AOpq):
+        return I.opaque(f"{name}() of opaque string", notnone=True)
     if isinstance(base, AExt):
         I.st.effects.append((f"{base.name}.{name}", list(args), dict(kw), f"{fr.fi.qualname}:{n.lineno}"))
         r = base.results.get(name, AOpq)
@@ -1252,7 +1289,7 @@ def method(fr, base, name, args, kw, n):
     if isinstance(base, (dict, list, tuple, bytes, bytearray, str, int, BitArr, NPArr, set)) or base in (bytes, str, int, dict, list):
         if isinstance(base, bytes) and name in ("hex", "decode") or isinstance(base, str) and name in ("format", "encode", "join", "rjust", "ljust", "upper", "lower", "strip", "split", "startswith", "endswith", "replace", "zfill"):
             if any(is_abs(a) for a in args):
-                return I.opaque(f"str/bytes method {name} on abstract")
+                return I.opaque(f"str/bytes method {name} on abstract", notnone=True)
         if isinstance(base, list) and name in ("append", "extend", "insert", "pop", "remove", "index", "copy", "clear", "reverse", "sort", "count"):
             if name == "index" and args and is_abs(args[0]):
                 for k, e in enumerate(base):
@@ -1366,11 +1403,11 @@ def bits_method(fr, b: ABits, name, args, kw, n):
     if name == "fill":
         return 0
     if name == "hex":
-        return I.opaque("hex()")
+        return I.opaque("hex()", notnone=True)
     if name == "to01":
-        return I.opaque("to01()")
+        return I.opaque("to01()", notnone=True)
     if name == "decode":
-        return I.opaque("decode()")
+        return I.opaque("decode()", notnone=True)
     if name == "count":
         return I.opaque("count()")
     if name == "index" and b.kind == "list":
@@ -1514,8 +1551,12 @@ def external(fr, name, args, kw, n):
         return deep_copy(args[0], deep=name.endswith("deepcopy"))
     if name.startswith("typing.") or name.startswith("logging"):
         return I.opaque(name)
+    if name in ("uuid.uuid4", "uuid.uuid1"):
+        o = I.opaque("impure:" + name, notnone=True)
+        o.unique = True
+        return o
     if name.startswith("datetime.") or name.startswith("time.") or name.startswith("secrets.") or name.startswith("random.") or name.startswith("uuid."):
-        return I.opaque("impure:" + name)
+        return I.opaque("impure:" + name, notnone=True)
     if name == "struct.pack" or name == "struct.unpack":
         return I.opaque(name)
     return I.opaque(f"external {name}")
